@@ -190,7 +190,7 @@ def run_check(pid, tier, seed, only=None, keep=False):
                             rec["known_finding"] = f["id"]
             groups = {}
             for h in kani_sel:
-                key = (h["pkg"], bool(h.get("tests")), tuple(h.get("flags") or ()), tuple(h.get("omit_contracts") or ()))
+                key = (h["pkg"], bool(h.get("tests")), tuple(h.get("flags") or ()) + ((("--features=" + h["features"]),) if h.get("features") else ()), tuple(h.get("omit_contracts") or ()))
                 groups.setdefault(key, []).append(h)
             scratches = {}
             for (pkg, tests, flags, omit), hs in groups.items():
@@ -226,8 +226,10 @@ def run_check(pid, tier, seed, only=None, keep=False):
                 if tier == "thorough":
                     to *= 3
                 try:
+                    feats = [f.split("=", 1)[1] for f in flags if f.startswith("--features=")]
                     out = vlib.run_kani(srepo, pkg, [h["harness"] for h in hs], timeout_s=to, jobs=14, tests=tests,
-                                        extra=["--no-assert-contracts"] + list(flags))
+                                        extra=["--no-assert-contracts"] + [f for f in flags if not f.startswith("--features=")],
+                                        features=feats[0] if feats else None)
                 except Undecided as e:
                     msg = str(e)
                     api_err = re.search(r"error\[E0(560|599|609|026|027|063|425|433)\][^\n]*\n\s*--> tests/verif_derive\.rs", msg)
@@ -315,7 +317,7 @@ def confirm_kani_failure(pid, srepo, h, rec):
         outs_v = []
         for tg in targets:
             try:
-                ts_, r = vlib.kani_counterexample(srepo, h["pkg"], tg, timeout_s=240, tests=bool(h.get("tests")))
+                ts_, r = vlib.kani_counterexample(srepo, h["pkg"], tg, timeout_s=240, tests=bool(h.get("tests")), features=h.get("features"))
                 tests += ts_
                 outs_v.append(r["stdout"][-3000:])
             except Undecided as e:
